@@ -63,6 +63,23 @@ let () =
     let now = rstr r in let md = ropt_with rwmeta r in let items = rlist rwitem r in
     let res = write_stl_c now md items in   (* checked transcription *)
     if write_faithful md items then pres pstr res else ns_class res);
+  (* C08: the Go-shaped cue list, nil elements and nil-able style pointers included (Model/StlCW.v) *)
+  register "stlwritem" (fun r ->
+    let now = rstr r in let md = ropt_with rwmeta r in
+    let rgstyle r = let j = ropt r in let p = ropt_z r in let i = ropt_with rbool r in let u = ropt_with rbool r in
+      let bx = ropt_with rbool r in { gs_just = j; gs_pos = p; gs_it = i; gs_un = u; gs_bx = bx } in
+    let rgli r = let t = rstr r in let s = ropt_with rgstyle r in { gl_text = t; gl_style = s } in
+    let rgitem r = let s = rz r in let e = rz r in let sa = ropt_with rgstyle r in let ls = rlist (rlist rgli) r in
+      { gsi_st = s; gsi_en = e; gsi_style = sa; gsi_lines = ls } in
+    let l = rlist (ropt_with rgitem) r in
+    let res = write_stl_items_c now md l in
+    let flat = List.filter_map (function Some i -> Some (item_flat i) | None -> None) l in
+    if write_faithful md flat then pres pstr res else ns_class res);
+  (* pinned cases outside the faithful domain whose characters the normaliser leaves alone (harness/stl_outside.go) *)
+  register "stlencraw" (fun r -> let t = rstr r in pres pstr (encode_text_stl_c t));
+  register "stlwriteraw" (fun r ->
+    let now = rstr r in let md = ropt_with rwmeta r in let items = rlist rwitem r in pres pstr (write_stl_c now md items));
+  register "stlreadraw" (fun r -> let ign = rbool r in let d = rstr r in pres prdoc (read_stl_c ign d));
   register "stlenc" (fun r ->
     let t = rstr r in
     if text_faithful t then pres pstr (encode_text_stl_c t) else Buffer.add_string b "NS 0 ");
@@ -96,6 +113,9 @@ let () =
   register "stlreadfail" (fun r ->
     let ign = rbool r in let d = rstr r in let k = nat_of_int (rint r) in let cs = rlist (fun r -> nat_of_int (rint r)) r in
     pres (fun _ -> ()) (read_stl_fail_at ign d k cs));
+  register "stlreadfailwd" (fun r ->   (* the failing Read delivers the last bytes with its error *)
+    let ign = rbool r in let d = rstr r in let k = nat_of_int (rint r) in let cs = rlist (fun r -> nat_of_int (rint r)) r in
+    pres (fun _ -> ()) (read_stl_fail_at_wd ign d k cs));
   register "stlwriteto" (fun r ->
     let now = rstr r in let md = ropt_with rwmeta r in let items = rlist rwitem r in let k = nat_of_int (rint r) in
     let res = write_stl_to now md items (Fail_at k) in
